@@ -2,7 +2,7 @@
    (GraphExpander.expand/_expand_graph, NameExpander.expand/_expand_name,
    item_in_iterable) and of the out-of-range node removal that
    cylc/flow/graph_parser.py applies to the expanded lines
-   (REC_NODE_OUT_OF_RANGE.sub).  Hand model, tied to the source by the C34
+   (REC_NODE_OUT_OF_RANGE.sub in parse_graph).  Hand model, tied to the source by the C34
    correspondence streams.
 
    Text is a list of code points.  Parameter names are numbered by the
@@ -360,9 +360,9 @@ Definition n_check (c : ncase) : bool :=
   | _, _ => false
   end.
 
-(* removal: each expanded left-hand expression and the string that
-   REC_NODE_OUT_OF_RANGE.sub('', expression) returned *)
-Record dcase := { d_items : list (expr * text) }.
-Definition d_model (c : dcase) := map (fun et => expr_text (drop_nodes (fst et))) (d_items c).
+(* removal: each expanded left-hand expression (node texts reduced to the task
+   name) and the set of task names GraphParser.parse_graph left in the graph *)
+Record dcase := { d_items : list (expr * list text) }.
+Definition d_model (c : dcase) := map (fun et => expr_nodes (drop_nodes (fst et))) (d_items c).
 Definition d_check (c : dcase) : bool :=
-  forallb (fun et => text_eqb (expr_text (drop_nodes (fst et))) (snd et)) (d_items c).
+  forallb (fun et => set_eqb text_eqb (expr_nodes (drop_nodes (fst et))) (snd et)) (d_items c).
